@@ -46,7 +46,8 @@ SIGNATURES = {}
 FEAT = gen.Feat(inherit=True, items=True, uncached=True, objrefs=False, shadow=False, max_top=3, max_child=2,
                 max_cells=3, max_rank=3, depth=1, tick=False)
 BAD_NAMES = ["3S", "_hid", "for", "a b", "", "x-y", "dé f", "Abc\n", "x1\n", " lead", "trail "]
-BAD_FORMULAS = ["def bad(x) return", "x = 1\ny = 2", "1 + 1", "def f(:\n    pass", "lambda x: (", "import os"]
+BAD_FORMULAS = ["def bad(x) return", "x = 1\ny = 2", "1 + 1", "def f(:\n    pass", "lambda x: (", "import os",
+                {"obj": "two_lambdas"}, {"obj": "builtin"}, {"obj": "partial"}]
 
 
 def plan(tier):
@@ -110,9 +111,16 @@ def gen_invalid(draw, G):
             return ["del_member", p, draw(st.sampled_from(derived))]
     if k == 13:
         return ["new_cells_raw", p, "fresh_bad", draw(st.sampled_from(BAD_FORMULAS + [5, ["list"]]))]
-    if k == 14 and s.cells:
-        return ["set_cells_formula_raw", p, draw(st.sampled_from(sorted(s.cells))),
-                draw(st.sampled_from(BAD_FORMULAS + [5]))]
+    if k == 14:
+        # (half of the time aimed at a cells that holds assigned values or is derived somewhere: state to lose)
+        hot = sorted({(sid, n) for (sid, n), d in G.inputs.items() if d and all(isinstance(x, str) for x in sid)}
+                     | {(t.path, n) for t in spaces for n in G.cells_names(t) if n not in t.cells})
+        bad = draw(st.sampled_from(BAD_FORMULAS + [5, {"obj": "two_lambdas"}, {"obj": "two_lambdas"}]))
+        if hot and draw(st.booleans()):
+            sid, n = draw(st.sampled_from(hot))
+            return ["set_cells_formula_raw", list(sid), n, bad]
+        if s.cells:
+            return ["set_cells_formula_raw", p, draw(st.sampled_from(sorted(s.cells))), bad]
     if k == 15:
         return ["set_formula_raw", p, draw(st.sampled_from(BAD_FORMULAS + [5, "lambda: 1 +"]))]
     if k == 16:
